@@ -12,6 +12,8 @@
 
 namespace preprocess {
 
+// Lines are handed to the pass and written back byte for byte: a trailing carriage return is part of the line
+// (stripping it made `y\r\r\n` lose one CR per run, so a filter was not idempotent on its own output).
 template <class Pass, class... PassArguments> int FilterParallel(const std::vector<std::string> &files, PassArguments&&... pass_construct) {
   uint64_t input = 0, output = 0;
   if (files.empty()) {
@@ -21,7 +23,7 @@ template <class Pass, class... PassArguments> int FilterParallel(const std::vect
     util::FileStream out(1);
     while (true) {
       try {
-        line = in.ReadLine();
+        line = in.ReadLine('\n', false);
       } catch (const util::EndOfFileException &e) { break; }
       ++input;
       if (pass(line)) {
@@ -36,9 +38,9 @@ template <class Pass, class... PassArguments> int FilterParallel(const std::vect
     util::FileStream out0(util::CreateOrThrow(files[2].c_str())), out1(util::CreateOrThrow(files[3].c_str()));
     while (true) {
       try {
-        line0 = in0.ReadLine();
+        line0 = in0.ReadLine('\n', false);
       } catch (const util::EndOfFileException &e) { break; }
-      line1 = in1.ReadLine();
+      line1 = in1.ReadLine('\n', false);
       ++input;
       if (pass0(line0) && pass1(line1)) {
         out0 << line0 << '\n';
@@ -47,7 +49,7 @@ template <class Pass, class... PassArguments> int FilterParallel(const std::vect
       }
     }
     try {
-      line1 = in1.ReadLine();
+      line1 = in1.ReadLine('\n', false);
       std::cerr << "Input is not balaced: " << files[1] << " has " << line1 << std::endl;
       return 2;
     } catch (const util::EndOfFileException &e) {}
